@@ -157,3 +157,7 @@ Definition raw_frame (n bsMax hs : Z) (chk : bool) (cap : Z) : res :=
 
 Definition replay_frame (sizes splits : list Z) (n bsMax hs : Z) (chk : bool) (s0 cap : Z) : res :=
   compress_frame (S (length sizes)) (bc_replay sizes) (split_list splits) n bsMax hs chk s0 cap.
+
+(* ZSTD_writeLastEmptyBlock: RETURN_ERROR_IF(dstCapacity < ZSTD_blockHeaderSize); writes 3 bytes *)
+Definition write_last_empty_block (cap : Z) : option Z :=
+  if cap <? BHS then None else Some BHS.
